@@ -24,7 +24,7 @@ ASSUMPTIONS = ["the cursor-level Xmemcpy model (proved to be a copy, C03_xmemcpy
 TRUSTED = ["Spec.Json.parse as oracle (compiled Lean evaluation)"]
 LEVEL_TEXT = ("Machine-checked proof (Lean 4): Spec.Json.parse bs = ok v implies the parser model builds exactly v (nesting, order, duplicates, "
               "decoded strings not clobbered by later in-place decoding, number kinds and values) - C03_value, C03_sax_assemble - and the "
-              "children-block copy is a copy (C03_xmemcpy_copy). The only number-related hypothesis left is the decidable guard ExpSmall (each number-like token is at most 9600 bytes long or has a written exponent below 100000 in absolute value - so every text of at most 9600 bytes satisfies it; known finding F6 lives outside it) - the number model itself is proved against the exact reference for every conversion path (C04). Every valid text of the run is also compared with the value "
+              "children-block copy is a copy (C03_xmemcpy_copy). No hypothesis about numbers is left: the number model is proved against the exact reference for every conversion path and every written exponent (C04, after the fix of finding F6); the only size bound is length + 4 < 2^32. Every valid text of the run is also compared with the value "
               "denoted per the executable spec, through the public accessor API.")
 LEVEL_NOTE = "Trusted: Lean kernel; standard axioms; compiled Lean evaluation of the spec; harness accessor walk."
 TECHNIQUE = "Lean 4 whole-parser refinement proof (tree = denoted value) + differential correspondence of trees"
